@@ -338,6 +338,16 @@ static bool ascending(const VectorInt& l)
   return true;
 }
 
+// output vectors handed to the library have the documented size, with spare capacity behind them so
+// that a call which writes a few values too many is seen as a wrong result and not as a corrupted heap
+static VectorDouble outVec(int n, double fill)
+{
+  VectorDouble y;
+  y.reserve((size_t)n + 64);
+  y.resize(n, fill);
+  return y;
+}
+
 typedef std::function<void(Regs&, Outcome&)> RouteFn;
 struct Route
 {
@@ -707,16 +717,16 @@ static std::vector<Route> routesOf(const OpRec& o, int p, const Regs& pre)
     bool t = o.i == 1;
     int nout = t ? c : r;
     add("prodMatVec", [=](Regs& g, Outcome&) { g.v = g.A->prodMatVec(g.v, t); });
-    add("prodMatVecInPlace", [=](Regs& g, Outcome&) { VectorDouble y(nout, 7.); g.A->prodMatVecInPlace(g.v, y, t); g.v = y; });
+    add("prodMatVecInPlace", [=](Regs& g, Outcome&) { VectorDouble y = outVec(nout, 7.); g.A->prodMatVecInPlace(g.v, y, t); g.v = y; });
     add("prodMatVecInPlace(span)", [=](Regs& g, Outcome& out) {
-      VectorDouble y(nout, 7.);
+      VectorDouble y = outVec(nout, 7.);
       constvect xs(g.v.data(), g.v.size());
       vect ys(y.data(), y.size());
       if (g.A->prodMatVecInPlace(xs, ys, t) != 0) { out.refused = true; return; }
       g.v = y; });
-    add("prodMatVecInPlacePtr", [=](Regs& g, Outcome&) { VectorDouble y(nout, 7.); g.A->prodMatVecInPlacePtr(g.v.data(), y.data(), t); g.v = y; });
+    add("prodMatVecInPlacePtr", [=](Regs& g, Outcome&) { VectorDouble y = outVec(nout, 7.); g.A->prodMatVecInPlacePtr(g.v.data(), y.data(), t); g.v = y; });
     add("addProdMatVecInPlace", [=](Regs& g, Outcome& out) {
-      VectorDouble y(nout, 0.);
+      VectorDouble y = outVec(nout, 0.);
       constvect xs(g.v.data(), g.v.size());
       vect ys(y.data(), y.size());
       if (g.A->addProdMatVecInPlace(xs, ys, t) != 0) { out.refused = true; return; }
@@ -724,19 +734,19 @@ static std::vector<Route> routesOf(const OpRec& o, int p, const Regs& pre)
     if (sp)
     {
       add("addProdMatVecInPlaceToDest", [=](Regs& g, Outcome&) {
-        VectorDouble y(nout, 0.);
+        VectorDouble y = outVec(nout, 0.);
         constvect xs(g.v.data(), g.v.size());
         vect ys(y.data(), y.size());
         asSparse(g.A)->addProdMatVecInPlaceToDest(xs, ys, t);
         g.v = y; });
       if (!t)
         add("addVecInPlaceVD", [=](Regs& g, Outcome& out) {
-          VectorDouble y(nout, 0.);
+          VectorDouble y = outVec(nout, 0.);
           if (asSparse(g.A)->addVecInPlaceVD(g.v, y) != 0) { out.refused = true; return; }
           g.v = y; });
       if (!t && r == c)
         add("ALinearOp::evalDirect", [=](Regs& g, Outcome& out) {
-          VectorDouble y(nout, 7.);
+          VectorDouble y = outVec(nout, 7.);
           if (asSparse(g.A)->evalDirect(g.v, y) != 0) { out.refused = true; return; }
           g.v = y; });
     }
@@ -746,8 +756,8 @@ static std::vector<Route> routesOf(const OpRec& o, int p, const Regs& pre)
     bool t = o.i == 1;
     int nout = t ? r : c;
     add("prodVecMat", [=](Regs& g, Outcome&) { g.v = g.A->prodVecMat(g.v, t); });
-    add("prodVecMatInPlace", [=](Regs& g, Outcome&) { VectorDouble y(nout, 7.); g.A->prodVecMatInPlace(g.v, y, t); g.v = y; });
-    add("prodVecMatInPlacePtr", [=](Regs& g, Outcome&) { VectorDouble y(nout, 7.); g.A->prodVecMatInPlacePtr(g.v.data(), y.data(), t); g.v = y; });
+    add("prodVecMatInPlace", [=](Regs& g, Outcome&) { VectorDouble y = outVec(nout, 7.); g.A->prodVecMatInPlace(g.v, y, t); g.v = y; });
+    add("prodVecMatInPlacePtr", [=](Regs& g, Outcome&) { VectorDouble y = outVec(nout, 7.); g.A->prodVecMatInPlacePtr(g.v.data(), y.data(), t); g.v = y; });
   }
   else if (op == "GetRow")
   {
@@ -991,7 +1001,7 @@ static volatile sig_atomic_t g_armed = 0;
 static volatile sig_atomic_t g_sig = 0;
 static void faultHandler(int sig)
 {
-  if (g_armed)
+  if (g_armed && sig != SIGABRT)
   {
     g_armed = 0;
     g_sig = sig;
@@ -1069,13 +1079,15 @@ static std::string compareRegs(const Regs& g, const Node& n, bool exact)
 }
 
 // reading routes and observers of the accumulator
-static void checkReaders(const Regs& g, const Node& n, const Node* pre, int p, int nodeIdx)
+static bool checkReaders(const Regs& g, const Node& n, const Node* pre, int p, int nodeIdx)
 {
+  bool allOk = true;
   const AMatrix* A = g.A;
   const QMat& e = n.A;
   bool exact = !n.ap;
   int r = e.r, c = e.c;
   auto fail = [&](const std::string& route, const Value& obs) {
+    allOk = false;
     stat("reader_mismatch");
     report("mismatch", n, pre, p, route, "read", qmatJson(e), obs, "reading route disagrees with the expected contents of A");
   };
@@ -1085,9 +1097,9 @@ static void checkReaders(const Regs& g, const Node& n, const Node* pre, int p, i
     if (!enter(nodeIdx, p, route, 0, 0, name)) return;
     long e0 = g_errcount;
     try { f(); }
-    catch (const AException& ex) { report("exception", n, pre, p, name, "read", qmatJson(e), Value(std::string(ex.what())), ""); stat("reader_exception"); }
-    catch (const ExitRequested&) { report("exception", n, pre, p, name, "read", qmatJson(e), Value("messageAbort"), ""); stat("reader_exception"); }
-    catch (...) { report("exception", n, pre, p, name, "read", qmatJson(e), Value("exception"), ""); stat("reader_exception"); }
+    catch (const AException& ex) { allOk = false; report("exception", n, pre, p, name, "read", qmatJson(e), Value(std::string(ex.what())), ""); stat("reader_exception"); }
+    catch (const ExitRequested&) { allOk = false; report("exception", n, pre, p, name, "read", qmatJson(e), Value("messageAbort"), ""); stat("reader_exception"); }
+    catch (...) { allOk = false; report("exception", n, pre, p, name, "read", qmatJson(e), Value("exception"), ""); stat("reader_exception"); }
     (void)e0;
     stat("readers");
   };
@@ -1136,14 +1148,15 @@ static void checkReaders(const Regs& g, const Node& n, const Node* pre, int p, i
   guarded("size/empty/isSquare", [&]() {
     bool ok = A->size() == r * c && !A->empty() && A->isSquare() == (r == c) && A->isSparse() == isSparseProf(p) && A->isDense() == !isSparseProf(p);
     if (!ok) fail("size/empty/isSquare", Value((long long)A->size())); });
-  if (!n.obs.getb("def", false)) return;
+  if (!n.obs.getb("def", false)) return allOk;
   auto failObs = [&](const std::string& name, double expv, double obsv) {
+    allOk = false;
     stat("observer_mismatch");
     report("mismatch", n, pre, p, name, "observer", Value(expv), Value(obsv), "observer of A disagrees");
   };
-  guarded("getMinimum", [&]() { double x = A->getMinimum(); double w = n.obs.getd("min", 0); if (!closeTo(x, w, true)) failObs("getMinimum", w, x); });
-  guarded("getMaximum", [&]() { double x = A->getMaximum(); double w = n.obs.getd("max", 0); if (!closeTo(x, w, true)) failObs("getMaximum", w, x); });
-  guarded("getNormInf", [&]() { double x = A->getNormInf(); double w = n.obs.getd("ninf", 0); if (!closeTo(x, w, true)) failObs("getNormInf", w, x); });
+  guarded("getMinimum", [&]() { double x = A->getMinimum(); double w = n.obs.getd("min", 0); if (!closeTo(x, w, exact)) failObs("getMinimum", w, x); });
+  guarded("getMaximum", [&]() { double x = A->getMaximum(); double w = n.obs.getd("max", 0); if (!closeTo(x, w, exact)) failObs("getMaximum", w, x); });
+  guarded("getNormInf", [&]() { double x = A->getNormInf(); double w = n.obs.getd("ninf", 0); if (!closeTo(x, w, exact)) failObs("getNormInf", w, x); });
   guarded("isSymmetric", [&]() { bool x = A->isSymmetric(); bool w = n.obs.getb("sym", false); if (x != w) failObs("isSymmetric", w, x); });
   guarded("isIdentity", [&]() { if (r != c) return; bool x = A->isIdentity(); bool w = n.obs.getb("ident", false); if (x != w) failObs("isIdentity", w, x); });
   guarded("isNonNegative", [&]() { bool x = A->isNonNegative(); bool w = n.obs.getb("nonneg", false); if (x != w) failObs("isNonNegative", w, x); });
@@ -1152,14 +1165,131 @@ static void checkReaders(const Regs& g, const Node& n, const Node* pre, int p, i
     const AMatrixSquare* S = dynamic_cast<const AMatrixSquare*>(A);
     if (S != nullptr)
     {
-      guarded("trace", [&]() { double x = S->trace(); double w = n.obs.getd("tr", 0); if (!closeTo(x, w, true)) failObs("trace", w, x); });
+      guarded("trace", [&]() { double x = S->trace(); double w = n.obs.getd("tr", 0); if (!closeTo(x, w, exact)) failObs("trace", w, x); });
       if (n.obs.getb("hasdet", false))
         guarded("determinant", [&]() { double x = S->determinant(); double w = n.obs.getd("det", 0); if (!closeTo(x, w, false)) failObs("determinant", w, x); });
     }
   }
+  return allOk;
 }
 
 static int g_threads = 0;
+
+// executes the last operation of node n on the registers 'pre' (which hold the contents of the parent
+// node pn) in storage p.  Returns the new registers (primary route) or nullptr when the branch is cut.
+// evaluates one route of the last operation of node n on a clone of the registers 'pre'.
+// Returns true when the route agrees with the expectation; *result receives the new registers when asked.
+static bool evalRoute(const Route& rt, const Node& n, const Node& pn, int p, const Regs& pre, Regs** result)
+{
+  const OpRec& o = n.h.back();
+  bool exact = !n.ap;
+  char target = targetOf(o.op);
+  Regs* g = pre.clone();
+  Outcome out;
+  runRoute(rt, *g, out);
+  stat("routes_executed");
+  stat(std::string("op:") + o.op + ":" + PROFNAME[p]);
+  std::string diff;
+  Value observed;
+  if (out.crashed)
+  {
+    stat("disagreements");
+    stat("crashes_recovered");
+    report("crash", n, &pn, p, rt.name, "crash", regsExpected(n), Value(out.crashed), "fault (signal) inside the library call");
+    return false;   // the clone is abandoned (it may be inconsistent)
+  }
+  if (out.exception.empty() && !out.refused)
+  {
+    // reading back is also protected: a call may leave an object that faults when it is read
+    if (sigsetjmp(g_jmp, 1) != 0)
+    {
+      stat("disagreements");
+      stat("crashes_recovered");
+      report("crash", n, &pn, p, rt.name, "crash", regsExpected(n), Value((int)g_sig), "fault (signal) when reading the result back");
+      return false;
+    }
+    g_armed = 1;
+    try { diff = compareRegs(*g, n, exact); }
+    catch (...) { diff = "unreadable"; }
+    if (!diff.empty()) observed = regsObserved(*g);
+    g_armed = 0;
+  }
+  if (out.exception.empty() && !out.refused && diff.empty() && out.status != 0)
+  {
+    // right values, but the call reports a failure
+    stat("disagreements");
+    report("status", n, &pn, p, rt.name, "status", Value(0), Value(out.status), "the call returns a non-zero error status although the result is the expected one");
+  }
+  bool bad = !out.exception.empty() || out.refused || !diff.empty();
+  if (bad)
+  {
+    bool refusal = (!out.exception.empty() || out.refused || out.errors > 0);
+    const char* kind = !out.exception.empty() ? "exception" : (out.refused ? "refused" : (out.errors > 0 ? "refused" : "mismatch"));
+    std::string note = out.exception;
+    if (out.errors > 0) note += (note.empty() ? "" : " | ") + std::string("library error message: ") + out.errtext;
+    if (refusal && n.mr[p])
+    {
+      stat("refused_as_documented");
+      stat(std::string("refused:") + o.op + ":" + PROFNAME[p]);
+    }
+    else
+    {
+      stat("disagreements");
+      report(kind, n, &pn, p, rt.name, diff.empty() ? std::string(1, target) : diff, regsExpected(n),
+             observed.isNull() ? Value(note) : observed, note);
+    }
+    delete g;
+    return false;
+  }
+  if (result != nullptr) { coerce(p, g->A); coerce(p, g->B); *result = g; } else delete g;
+  return true;
+}
+
+// routes listed by the caller (operation|storage|route) are evaluated in a forked process: they are known
+// to write outside their buffers, which would otherwise corrupt the heap of the replay
+static std::set<std::string> ISOLATE;
+static bool g_isolated = false;
+
+// returns 0 agreed, 1 disagreed (reported), 2 died (reported as crash)
+static int evalIsolated(const Route& rt, const Node& n, const Node& pn, int p, const Regs& pre)
+{
+  int fd[2];
+  if (pipe(fd) != 0) return 1;
+  fflush(OUT);
+  pid_t pid = fork();
+  if (pid == 0)
+  {
+    close(fd[0]);
+    g_isolated = true;
+    FILE* w = fdopen(fd[1], "w");
+    OUT = w;
+    STATS.clear();
+    bool ok = evalRoute(rt, n, pn, p, pre, nullptr);
+    fflush(w);
+    _exit(ok ? 0 : 1);
+  }
+  close(fd[1]);
+  std::string buf;
+  char tmp[4096];
+  ssize_t k;
+  while ((k = read(fd[0], tmp, sizeof tmp)) > 0) buf.append(tmp, (size_t)k);
+  close(fd[0]);
+  int status = 0;
+  waitpid(pid, &status, 0);
+  stat("routes_isolated");
+  if (WIFEXITED(status))
+  {
+    if (!buf.empty()) { fwrite(buf.data(), 1, buf.size(), OUT); }
+    if (WEXITSTATUS(status) != 0) stat("disagreements");
+    return WEXITSTATUS(status) == 0 ? 0 : 1;
+  }
+  // partial lines of a dying process are dropped; the death itself is the disagreement
+  stat("disagreements");
+  stat("crashes_isolated");
+  report("crash", n, &pn, p, rt.name, "crash", regsExpected(n), Value(WIFSIGNALED(status) ? WTERMSIG(status) : -1),
+         "the library call (run in an isolated process) died");
+  return 2;
+}
 
 // executes the last operation of node n on the registers 'pre' (which hold the contents of the parent
 // node pn) in storage p.  Returns the new registers (primary route) or nullptr when the branch is cut.
@@ -1167,8 +1297,6 @@ static Regs* step(int nodeIdx, const Node& n, const Node& pn, int p, const Regs&
 {
   const OpRec& o = n.h.back();
   std::vector<Route> routes = routesOf(o, p, pre);
-  bool exact = !n.ap;
-  char target = targetOf(o.op);
   Regs* result = nullptr;
   for (size_t k = 0; k < routes.size(); k++)
   {
@@ -1177,68 +1305,16 @@ static Regs* step(int nodeIdx, const Node& n, const Node& pn, int p, const Regs&
       if (k == 0) return nullptr;
       continue;
     }
-    Regs* g = pre.clone();
-    Outcome out;
-    runRoute(routes[k], *g, out);
-    stat("routes_executed");
-    stat(std::string("op:") + o.op + ":" + PROFNAME[p]);
-    std::string diff;
-    Value observed;
-    if (out.crashed)
+    bool iso = !g_isolated && ISOLATE.count(o.op + "|" + PROFNAME[p] + "|" + routes[k].name) > 0;
+    bool ok;
+    if (iso)
     {
-      stat("disagreements");
-      stat("crashes_recovered");
-      report("crash", n, &pn, p, routes[k].name, "crash", regsExpected(n), Value(out.crashed), "fault (signal) inside the library call");
-      // the clone is abandoned (it may be inconsistent)
-      if (k == 0) return nullptr;
-      continue;
+      ok = evalIsolated(routes[k], n, pn, p, pre) == 0;
+      if (ok && k == 0) ok = evalRoute(routes[k], n, pn, p, pre, &result);   // it behaved: now for real
     }
-    if (out.exception.empty() && !out.refused)
-    {
-      // reading back is also protected: a call may leave an object that faults when it is read
-      if (sigsetjmp(g_jmp, 1) != 0)
-      {
-        stat("disagreements");
-        stat("crashes_recovered");
-        report("crash", n, &pn, p, routes[k].name, "crash", regsExpected(n), Value((int)g_sig), "fault (signal) when reading the result back");
-        if (k == 0) return nullptr;
-        continue;
-      }
-      g_armed = 1;
-      try { diff = compareRegs(*g, n, exact); }
-      catch (...) { diff = "unreadable"; }
-      if (!diff.empty()) observed = regsObserved(*g);
-      g_armed = 0;
-    }
-    if (out.exception.empty() && !out.refused && diff.empty() && out.status != 0)
-    {
-      // right values, but the call reports a failure
-      stat("disagreements");
-      report("status", n, &pn, p, routes[k].name, "status", Value(0), Value(out.status), "the call returns a non-zero error status although the result is the expected one");
-    }
-    bool bad = !out.exception.empty() || out.refused || !diff.empty();
-    if (bad)
-    {
-      bool refusal = (!out.exception.empty() || out.refused || out.errors > 0);
-      const char* kind = !out.exception.empty() ? "exception" : (out.refused ? "refused" : (out.errors > 0 ? "refused" : "mismatch"));
-      std::string note = out.exception;
-      if (out.errors > 0) note += (note.empty() ? "" : " | ") + std::string("library error message: ") + out.errtext;
-      if (refusal && n.mr[p])
-      {
-        stat("refused_as_documented");
-        stat(std::string("refused:") + o.op + ":" + PROFNAME[p]);
-      }
-      else
-      {
-        stat("disagreements");
-        report(kind, n, &pn, p, routes[k].name, diff.empty() ? std::string(1, target) : diff, regsExpected(n),
-               observed.isNull() ? Value(note) : observed, note);
-      }
-      delete g;
-      if (k == 0) return nullptr;   // the branch is cut for this storage
-      continue;
-    }
-    if (k == 0) { coerce(p, g->A); coerce(p, g->B); result = g; } else delete g;
+    else
+      ok = evalRoute(routes[k], n, pn, p, pre, k == 0 ? &result : nullptr);
+    if (!ok && k == 0) return nullptr;   // the branch is cut for this storage
   }
   return result;
 }
@@ -1350,8 +1426,9 @@ static void dfs(int nodeIdx, int p, const Regs& regs, bool inflonly)
     Regs* g = step(ci, c, n, p, regs);
     stat("steps");
     if (g == nullptr) continue;
-    if (!inflonly) checkReaders(*g, c, &n, p, ci);
-    dfs(ci, p, *g, inflonly);
+    // a state whose reading routes disagree is not used further (one root cause, one report)
+    bool consistent = inflonly || checkReaders(*g, c, &n, p, ci);
+    if (consistent) dfs(ci, p, *g, inflonly);
     delete g;
   }
 }
@@ -1377,8 +1454,7 @@ static void runRoot(int rootIdx, bool inflonly)
         report("mismatch", root, nullptr, p, "construction", diff, regsExpected(root), regsObserved(regs), "initial contents not read back");
         continue;
       }
-      checkReaders(regs, root, nullptr, p, rootIdx);
-      dfs(rootIdx, p, regs, false);
+      if (checkReaders(regs, root, nullptr, p, rootIdx)) dfs(rootIdx, p, regs, false);
     }
   }
   if (g_infl > 0)
@@ -1555,6 +1631,12 @@ int main(int argc, char** argv)
     int threads = opts.count("threads") ? atoi(opts["threads"].c_str()) : 0;
     g_infl = opts.count("infl") ? atoi(opts["infl"].c_str()) : 0;
     bool inflonly = opts.count("inflonly") && opts["inflonly"] == "1";
+    if (opts.count("isolate"))
+    {
+      std::ifstream f(opts["isolate"]);
+      std::string line;
+      while (std::getline(f, line)) if (!line.empty()) ISOLATE.insert(line);
+    }
     setupLibrary(threads);
     loadBehaviours(argv[2]);
     OUT = fopen(argv[3], "w");
